@@ -37,6 +37,8 @@ type c09Signer struct {
 	// further certificates for the same key and subject whose *own* signature uses another algorithm of the family or
 	// comes from an issuer of another family (what a certificate was signed with says nothing about its key)
 	alts []*gx509.Certificate
+	// an issuer certificate for the same key whose subject carries attributes outside the fixed pkix.Name fields
+	exotic *gx509.Certificate
 }
 
 // stdAlg maps a gmsm signature algorithm number to the standard library's (same names, different numbering).
@@ -124,7 +126,7 @@ func runC09(c *Ctx) {
 			rep.Violation("C09/harness/cannot-create-sm2-issuer", fmt.Sprint(err, err2), nil)
 			return
 		}
-		signers = append(signers, &c09Signer{"sm2", k, o, cc, oc, []gx509.SignatureAlgorithm{0, gx509.SM2WithSM3, gx509.SM2WithSHA1, gx509.SM2WithSHA256}, k.D, nil})
+		signers = append(signers, &c09Signer{"sm2", k, o, cc, oc, []gx509.SignatureAlgorithm{0, gx509.SM2WithSM3, gx509.SM2WithSHA1, gx509.SM2WithSHA256}, k.D, nil, nil})
 	}
 	mkStd := func(family string, k, o crypto.Signer, algs []gx509.SignatureAlgorithm) {
 		pubOf := func(s crypto.Signer) interface{} { return s.Public() }
@@ -146,7 +148,7 @@ func runC09(c *Ctx) {
 			rep.Note("could not mint issuer certificate for " + family)
 			return
 		}
-		signers = append(signers, &c09Signer{family, k, o, cc, oc, algs, nil, nil})
+		signers = append(signers, &c09Signer{family, k, o, cc, oc, algs, nil, nil, nil})
 	}
 	rk1, rk2 := cachedRSA()
 	mkStd("rsa", rk1, rk2, []gx509.SignatureAlgorithm{0, gx509.SHA1WithRSA, gx509.SHA256WithRSA, gx509.SHA384WithRSA, gx509.SHA512WithRSA, gx509.SHA256WithRSAPSS, gx509.SHA384WithRSAPSS, gx509.SHA512WithRSAPSS})
@@ -207,6 +209,20 @@ func runC09(c *Ctx) {
 				t := tmplOf(s)
 				t.SignatureAlgorithm = a
 				addAlt(s, t, nil, s.key)
+			}
+		}
+		// issuers whose subject holds attributes outside the fixed pkix.Name fields (givenName, emailAddress) next to the
+		// usual ones: a child's issuer field must be the parent's subject byte for byte
+		for _, s := range signers {
+			t := tmplOf(s)
+			t.SerialNumber = big.NewInt(78)
+			t.Subject = pkix.Name{CommonName: s.family + " Exotic Issuer", Organization: []string{"Org, with comma"}, ExtraNames: []pkix.AttributeTypeAndValue{
+				{Type: asn1.ObjectIdentifier{2, 5, 4, 42}, Value: "Given"}, {Type: asn1.ObjectIdentifier{1, 2, 840, 113549, 1, 9, 1}, Value: "ca@example.org"}}}
+			before := len(s.alts)
+			addAlt(s, t, nil, s.key)
+			if len(s.alts) > before {
+				s.exotic = s.alts[len(s.alts)-1]
+				s.alts = s.alts[:before]
 			}
 		}
 		// cross-family: an SM2 CA certified by an RSA root, a P-256 CA certified by an RSA root
@@ -560,7 +576,13 @@ func runC09(c *Ctx) {
 		w := map[string]interface{}{"object": "certificate", "signer": j.s.family, "algorithm": algName(j.alg), "template_class": tc.cls, "template_index": j.i}
 		var der []byte
 		var err error
-		if pi := mon.Guard(func() { der, err = gx509.CreateCertificate(t, j.s.cert, &subjPub.PublicKey, j.s.key) }); pi != nil {
+		parent := j.s.cert
+		if j.i%3 == 1 && j.s.exotic != nil {
+			parent = j.s.exotic
+			cls += "/issuer=exotic-subject"
+			w["issuer_certificate"] = mon.Hex(parent.Raw)
+		}
+		if pi := mon.Guard(func() { der, err = gx509.CreateCertificate(t, parent, &subjPub.PublicKey, j.s.key) }); pi != nil {
 			rep.Violation("C09/CreateCertificate/panic/"+pi.Func, pi.Value, w)
 			rep.Eval(cls)
 			return
@@ -586,11 +608,29 @@ func runC09(c *Ctx) {
 		if pk, ok := p.PublicKey.(*ecdsa.PublicKey); !ok || pk.X.Cmp(subjPub.X) != 0 || pk.Y.Cmp(subjPub.Y) != 0 {
 			rep.Violation("C09/CreateCertificate/field-mismatch/PublicKey", fmt.Sprintf("%T", p.PublicKey), w)
 		}
-		if p.Issuer.ToRDNSequence().String() != j.s.cert.Subject.ToRDNSequence().String() {
-			rep.Violation("C09/CreateCertificate/field-mismatch/Issuer", "", w)
+		if !bytes.Equal(p.RawIssuer, parent.RawSubject) {
+			rep.Violation("C09/CreateCertificate/field-mismatch/Issuer", fmt.Sprintf("issuer field %x is not the parent's subject %x", p.RawIssuer, parent.RawSubject), w)
+		}
+		// name chaining as a verifier sees it: the parent as the only root must yield a chain (time and usages aside)
+		{
+			roots := gx509.NewCertPool()
+			roots.AddCert(parent)
+			mid := p.NotBefore.Add(p.NotAfter.Sub(p.NotBefore) / 2)
+			if parent.NotBefore.After(mid) || parent.NotAfter.Before(mid) {
+				mid = fixedNow
+			}
+			if _, e := p.Verify(gx509.VerifyOptions{Roots: roots, CurrentTime: mid, KeyUsages: []gx509.ExtKeyUsage{gx509.ExtKeyUsageAny}}); e != nil {
+				if _, isUA := e.(gx509.UnknownAuthorityError); isUA {
+					rep.Violation("C09/CreateCertificate/issuer-not-found-by-name", e.Error(), w)
+				} else {
+					rep.Count("chain_checks_skipped(validity/constraints of the random template)", 1)
+				}
+			} else {
+				rep.Count("chain_checks_ok", 1)
+			}
 		}
 		// verification under the issuer
-		if e := p.CheckSignatureFrom(j.s.cert); e != nil {
+		if e := p.CheckSignatureFrom(parent); e != nil {
 			rep.Violation("C09/CreateCertificate/does-not-verify-under-issuer/"+j.s.family+"/"+algName(j.alg), e.Error(), w)
 		} else {
 			// under another key of the same type
@@ -612,7 +652,7 @@ func runC09(c *Ctx) {
 				if e != nil {
 					return nil, nil, e
 				}
-				return pc.RawTBSCertificate, pc.Signature, pc.CheckSignatureFrom(j.s.cert)
+				return pc.RawTBSCertificate, pc.Signature, pc.CheckSignatureFrom(parent)
 			}, every, rr, w)
 		}
 		rep.Eval(cls)
